@@ -304,11 +304,26 @@ def run(prog):
         clos = [g for g in prog.lib_fns if g.npath.startswith(ufn.npath + "::{closure")]
         fold = [g for g in clos if "get(" in show(g.terms.ret) or any(c.callee.name == "get" for c in g.terms.calls)]
         errs = []
+        low, high = ("param", 3), ("param", 4)
         if len(fold) != 1:
-            raise CheckerError("BB6: fold closure of %s not found" % uname)
+            # the step may have been extracted: a closure that only forwards (var, low, high, ..) to a private function
+            fwd = []
+            for c_ in clos:
+                r_ = strip(c_.terms.ret) if c_.terms.ret is not None else None
+                if isinstance(r_, tuple) and r_ and r_[0] == "call" and (r_[1].local or getattr(r_[1], "res_local", False)):
+                    hs_ = [h for h in prog.resolve(r_[1]) if "{closure" not in h.npath and
+                           any(c2.callee.name == "get" for c2 in h.terms.calls)]
+                    a_ = [strip(x) for x in r_[2]]
+                    if len(hs_) == 1 and ("param", 3) in a_ and ("param", 4) in a_:
+                        fwd.append((hs_[0], ("param", a_.index(("param", 3)) + 1), ("param", a_.index(("param", 4)) + 1)))
+            if len(fwd) == 1:
+                fold = [fwd[0][0]]
+                low, high = fwd[0][1], fwd[0][2]
+        if len(fold) != 1:
+            out.append(inst("BB", "%s:BB6:bound" % ufn.npath, UNDECIDED, ufn, None, "fold step of %s not found" % uname))
+            continue
         g = fold[0]
         rr = strip(g.terms.ret)
-        low, high = ("param", 3), ("param", 4)
         alts = []
         if rr[0] == "phi":
             alts = [strip(v) for _, v in rr[2]]
